@@ -1,45 +1,28 @@
-"""C10 — a version's canonical string denotes the same version.
-
-Thin driver: every module in harness/props/parts/ that defines c10(ctx) contributes its
-system (the PyPI part is parts/pypi.py)."""
+"""C10 driver: runs every part module (harness/props/parts/*.py) that defines c10(ctx)."""
+import glob
 import importlib
 import os
-import pkgutil
-
 import lib
 
 PROOF_FILE = "C10"
 LEVEL = "proof"
-RULE = ("generated version strings per system (grammar-directed with alternative spellings and boundary numbers, plus "
-        "malformed ones); for every accepted string: Canon(true) must parse, compare equal to the original and be a fixed "
-        "point of Canon; strings with the same canonical form must compare equal. A string is non-trivial when it is accepted")
+RULE = "see the per-system parts; distinct accepted version strings / pairs are counted as non-trivial"
 TRUSTED = [
-    "Coq 8.16.1 kernel (+vm_compute for refuted witnesses)",
-    "translator gotables; extraction + driver.ml; Go harness; python generators",
+    "Coq 8.16.1 kernel", "hook H4 (semver.VerifDump)", "translator gotables",
+    "extraction (ExtrOcamlBasic only) + driver.ml; Go harness; python generators",
+    "declarative specifications in coq/Spec are transcriptions of the published algorithms",
 ]
-ASSUMPTIONS = [
-    "models validated against the implementation by execution on every run (parser, Canon and Compare correspondence), not verified against the Go source",
-]
-MANIFEST = dict(
-    category="proof",
-    text=("Model of Parse/Canon/Compare; theorems: re-parse of the canonical string, idempotence and injectivity on the "
-          "stated domain, refuted witnesses outside it (known findings); tie: correspondence of the whole round trip and "
-          "the clauses evaluated directly on Go."),
-    note="Trusted: Coq kernel, translator, extraction+driver, Go harness, generators.",
-    technique="Rocq proof (parse of print) + differential correspondence + round-trip oracle on Go",
-    design="8 C10")
-
-
-def _parts(fn):
-    import props.parts as parts
-    out = []
-    for m in sorted(pkgutil.iter_modules([os.path.dirname(parts.__file__)]), key=lambda m: m.name):
-        mod = importlib.import_module("props.parts." + m.name)
-        if hasattr(mod, fn):
-            out.append((m.name, getattr(mod, fn)))
-    return out
+ASSUMPTIONS = ["hand-written model validated by execution on every run"]
+MANIFEST = dict(category="proof", text='Model of Canon for all systems validated against Go on every generated string (both showBuild modes); the three re-parse clauses and canon-injectivity are evaluated directly on the implementation for every accepted string; theorems in Properties/C10*.v: canon is a function of the parsed fields, clause 4 follows from clauses 1-2 and the C01 order laws, plus the per-system round-trip theorems of the part modules where proved.', note='The print/parse inversion for the SemVer family is NOT a theorem (decided by correspondence + oracle); RubyGems prerelease canon is a recorded finding.', technique='Rocq lemmas over the canon model + differential correspondence + direct re-parse oracle', design='8 C10')
 
 
 def run(ctx):
-    for name, f in _parts("c10"):
-        f(ctx)
+    here = os.path.dirname(os.path.abspath(__file__))
+    for f in sorted(glob.glob(os.path.join(here, "parts", "*.py"))):
+        name = os.path.basename(f)[:-3]
+        if name.startswith("_"):
+            continue
+        mod = importlib.import_module("props.parts." + name)
+        fn = getattr(mod, "c10", None)
+        if fn:
+            fn(ctx)
